@@ -137,3 +137,7 @@ def run(ctx, rep):
     from props import storage_forms as sfd_
     sfd_.segment_delete_files(ctx, rep, 'R14.i')
 
+    # ------------------------------------------------------------ R14.j an updated expiry survives a restart
+    from props.c05 import replay_consumes_payload
+    replay_consumes_payload(ctx, rep, 'R14.j')
+
